@@ -24,6 +24,9 @@ O == [udsrc |-> T.udsrc, node |-> T.node, node_at |-> T.node_at, node_n |-> T.no
       node_url |-> T.node_url, rootvia |-> T.rootvia, root_url |-> T.root_url, http |-> Http(T.http),
       ud_sent |-> T.ud_sent, att_file |-> T.att_file, contacted |-> T.contacted,
       g_err |-> T.g_err, v_err |-> T.v_err, sigsite |-> T.sigsite, sigclass |-> T.sigclass,
+      hist |-> T.hist, prev_ok |-> T.prev_ok, dev_prev |-> Dev(T.dev_prev),
+      earlier_before |-> T.earlier_before, earlier_after |-> T.earlier_after,
+      verify_prev |-> T.verify_prev, printed_prev |-> Prn(T.printed_prev),
       plat |-> T.plat, alt |-> T.alt, dev |-> Dev(T.dev),
       g_onboard |-> T.g_onboard, g_attest |-> T.g_attest, gather |-> T.gather,
       file0 |-> T.file0, reload0 |-> T.reload0, file |-> T.file, reload |-> T.reload,
